@@ -7,21 +7,49 @@
   `allowed` does not change the context at all (it is a pure function of it).  Hence the verdict of
   every check through a reused context equals the verdict of a fresh `Allowed`.
 
-  Events are compared by pointer identity in Go and by (version, event ID) in the model; the
-  hypothesis `Ids U` says that within the universe `U` of events in play this identifies them.
+  Events are compared by pointer identity in Go and structurally (version, event ID and the whole JSON value) in the
+  model: `sameEvent a b = true → a = b` (`sameEvent_eq`), so no assumption about event IDs is needed (until round 4 the
+  model compared (version, event ID) and the theorems carried a hypothesis `Ids U`: within the events in play the ID
+  identifies the event — which the trusted constructors do not guarantee).
 -/
 import VModel.Auth
 import VProofs.AuthNeededProviders
 namespace V.C09
 open V V.Json V.GoJson V.Auth
 
-/-- within `U`, (version, event ID) identifies an event -/
-def Ids (U : Event → Prop) : Prop := ∀ x y, U x → U y → x.eventID = y.eventID → x.ver = y.ver → x = y
+mutual
+theorem jvBeq_eq : ∀ (x y : JVal), jvBeq x y = true → x = y
+  | .null, y, h => by cases y <;> simp [jvBeq] at h ⊢
+  | .bool a, y, h => by cases y <;> simp [jvBeq] at h ⊢; exact h
+  | .num a, y, h => by cases y <;> simp [jvBeq] at h ⊢; exact h
+  | .str a, y, h => by cases y <;> simp [jvBeq] at h ⊢; exact h
+  | .arr a, y, h => by
+    cases y <;> simp [jvBeq] at h ⊢
+    exact jvsBeq_eq a _ h
+  | .obj a, y, h => by
+    cases y <;> simp [jvBeq] at h ⊢
+    exact jkvsBeq_eq a _ h
+theorem jvsBeq_eq : ∀ (xs ys : List JVal), jvsBeq xs ys = true → xs = ys
+  | [], ys, h => by cases ys <;> simp [jvsBeq] at h ⊢
+  | x :: xs, ys, h => by
+    cases ys with
+    | nil => simp [jvsBeq] at h
+    | cons y ys =>
+      simp only [jvsBeq, Bool.and_eq_true] at h
+      rw [jvBeq_eq x y h.1, jvsBeq_eq xs ys h.2]
+theorem jkvsBeq_eq : ∀ (xs ys : List (Bytes × JVal)), jkvsBeq xs ys = true → xs = ys
+  | [], ys, h => by cases ys <;> simp [jkvsBeq] at h ⊢
+  | (k, x) :: xs, ys, h => by
+    cases ys with
+    | nil => simp [jkvsBeq] at h
+    | cons y ys =>
+      obtain ⟨l, y⟩ := y
+      simp only [jkvsBeq, Bool.and_eq_true, beq_iff_eq] at h
+      rw [h.1.1, jvBeq_eq x y h.1.2, jkvsBeq_eq xs ys h.2]
+end
 
-def OptIn (U : Event → Prop) (o : Option Event) : Prop := ∀ e, o = some e → U e
-
-theorem sameEvent_eq {U : Event → Prop} (hU : Ids U) {a b : Option Event} (ha : OptIn U a) (hb : OptIn U b)
-    (h : sameEvent a b = true) : a = b := by
+/-- the model's identity test is sound: events it takes for the same ARE the same -/
+theorem sameEvent_eq {a b : Option Event} (h : sameEvent a b = true) : a = b := by
   cases a with
   | none => cases b with
     | none => rfl
@@ -30,20 +58,23 @@ theorem sameEvent_eq {U : Event → Prop} (hU : Ids U) {a b : Option Event} (ha 
     | none => simp [sameEvent] at h
     | some y =>
       simp only [sameEvent, Bool.and_eq_true, beq_iff_eq] at h
-      rw [hU x y (ha x rfl) (hb y rfl) h.1 h.2]
+      obtain ⟨v1, id1, o1⟩ := x
+      obtain ⟨v2, id2, o2⟩ := y
+      simp only at h
+      rw [h.1.1, h.1.2, jkvsBeq_eq o1 o2 h.2]
 
 /-- The cache invariant: whatever is cached for an event is what a refresh from that event computes. -/
-structure Inv (U : Event → Prop) (a : Ctx) : Prop where
-  inU : OptIn U a.createEvent ∧ OptIn U a.plEvent ∧ OptIn U a.jrEvent
+structure Inv (a : Ctx) : Prop where
   create : ∀ ce, a.createEvent = some ce →
     createInfo (some ce) = .ok (some ce, a.create, a.creators, a.privilegedCreators)
   pl : ∀ pe, a.plEvent = some pe → ∀ creator, plInfo (some pe) creator = .ok (some pe, a.pl)
+  /-- a cached power-levels event was loaded without error -/
+  plErr : ∀ pe, a.plEvent = some pe → a.plErr = none
   jr : ∀ je, a.jrEvent = some je → jrInfo (some je) = (some je, a.joinRule)
 
 /-- the state of a context that has never been used -/
-theorem inv_empty (U : Event → Prop) : Inv U {} :=
-  ⟨⟨(fun _ h => by cases h), (fun _ h => by cases h), (fun _ h => by cases h)⟩,
-   (fun _ h => by cases h), (fun _ h => by cases h), (fun _ h => by cases h)⟩
+theorem inv_empty : Inv {} :=
+  ⟨(fun _ h => by cases h), (fun _ h => by cases h), (fun _ h => by cases h), (fun _ h => by cases h)⟩
 
 /-! ### each refresh stage yields what the refresh function computes from the provider alone -/
 
@@ -77,6 +108,16 @@ theorem plInfo_some {e : Option Event} {cr pe pl} (h : plInfo e cr = .ok (some p
       simp only [hp] at h
       cases v <;> simp at h
 
+/-- a power-levels event that `plInfo` caches was loaded without error -/
+theorem plErrOf_none_of_plInfo {pe : Event} {cr : Bytes} {pl : PowerLevels} (h : plInfo (some pe) cr = .ok (some pe, pl)) :
+    plErrOf (some pe) = none := by
+  unfold plInfo at h
+  unfold plErrOf
+  simp only at h ⊢
+  cases hp : powerLevelsFromEvent pe with
+  | ok x => rfl
+  | error v => rw [hp] at h; cases v <;> simp at h
+
 theorem jrInfo_some {e : Option Event} {je jr} (h : jrInfo e = (some je, jr)) :
     e = some je ∧ jrInfo (some je) = (some je, jr) := by
   unfold jrInfo at h
@@ -91,7 +132,7 @@ theorem jrInfo_some {e : Option Event} {je jr} (h : jrInfo e = (some je, jr)) :
       exact ⟨rfl, by simp [jrInfo, hd]⟩
     | none => simp [hd] at h
 
-theorem refreshCreate_spec {U} (hU : Ids U) (a : Ctx) (p : Provider) (hinv : Inv U a) (hp : OptIn U p.create) :
+theorem refreshCreate_spec (a : Ctx) (p : Provider) (hinv : Inv a) :
     a.refreshCreate p =
       (match createInfo p.create with
        | .ok (ce, c, cr, pr) => .ok { a with createEvent := ce, create := c, creators := cr, privilegedCreators := pr }
@@ -102,7 +143,7 @@ theorem refreshCreate_spec {U} (hU : Ids U) (a : Ctx) (p : Provider) (hinv : Inv
   · rename_i hc
     simp only [Bool.or_eq_true, Bool.not_eq_true', not_or, Bool.not_eq_false, Option.isNone_iff_eq_none] at hc
     obtain ⟨hsome, hsame⟩ := hc
-    have heq : a.createEvent = p.create := sameEvent_eq hU hinv.inU.1 hp hsame
+    have heq : a.createEvent = p.create := sameEvent_eq hsame
     cases hce : a.createEvent with
     | none => exact absurd hce hsome
     | some ce =>
@@ -113,10 +154,10 @@ theorem refreshCreate_spec {U} (hU : Ids U) (a : Ctx) (p : Provider) (hinv : Inv
 theorem plInfo_some_creator (pe : Event) (c1 c2 : Bytes) : plInfo (some pe) c1 = plInfo (some pe) c2 := by
   unfold plInfo; rfl
 
-theorem refreshPL_spec {U} (hU : Ids U) (a : Ctx) (p : Provider) (hinv : Inv U a) (hp : OptIn U p.powerLevels) :
+theorem refreshPL_spec (a : Ctx) (p : Provider) (hinv : Inv a) :
     a.refreshPL p =
       (match plInfo p.powerLevels (senderOfOpt a.createEvent) with
-       | .ok (pe, pl) => .ok { a with plEvent := pe, pl := pl }
+       | .ok (pe, pl) => .ok { a with plEvent := pe, pl := pl, plErr := plErrOf p.powerLevels }
        | .error v => .error v) := by
   unfold Ctx.refreshPL
   split
@@ -124,15 +165,16 @@ theorem refreshPL_spec {U} (hU : Ids U) (a : Ctx) (p : Provider) (hinv : Inv U a
   · rename_i hc
     simp only [Bool.or_eq_true, Bool.not_eq_true', not_or, Bool.not_eq_false, Option.isNone_iff_eq_none] at hc
     obtain ⟨hsome, hsame⟩ := hc
-    have heq : a.plEvent = p.powerLevels := sameEvent_eq hU hinv.inU.2.1 hp hsame
+    have heq : a.plEvent = p.powerLevels := sameEvent_eq hsame
     cases hpe : a.plEvent with
     | none => exact absurd hpe hsome
     | some pe =>
       have := hinv.pl pe hpe (senderOfOpt a.createEvent)
-      rw [← heq, hpe, this]
+      have he := hinv.plErr pe hpe
+      rw [← heq, hpe, this, plErrOf_none_of_plInfo this]
       cases a; simp_all
 
-theorem refreshJR_spec {U} (hU : Ids U) (a : Ctx) (p : Provider) (hinv : Inv U a) (hp : OptIn U p.joinRules) :
+theorem refreshJR_spec (a : Ctx) (p : Provider) (hinv : Inv a) :
     a.refreshJR p = { a with jrEvent := (jrInfo p.joinRules).1, joinRule := (jrInfo p.joinRules).2 } := by
   unfold Ctx.refreshJR
   split
@@ -140,7 +182,7 @@ theorem refreshJR_spec {U} (hU : Ids U) (a : Ctx) (p : Provider) (hinv : Inv U a
   · rename_i hc
     simp only [Bool.or_eq_true, Bool.not_eq_true', not_or, Bool.not_eq_false, Option.isNone_iff_eq_none] at hc
     obtain ⟨hsome, hsame⟩ := hc
-    have heq : a.jrEvent = p.joinRules := sameEvent_eq hU hinv.inU.2.2 hp hsame
+    have heq : a.jrEvent = p.joinRules := sameEvent_eq hsame
     cases hje : a.jrEvent with
     | none => exact absurd hje hsome
     | some je =>
@@ -157,14 +199,14 @@ def freshOf (p : Provider) : R Ctx :=
     | .error v => .error v
     | .ok (pe, pl) =>
       .ok { provider := p, hasProvider := true, createEvent := ce, create := c, creators := cr, privilegedCreators := pr,
-            plEvent := pe, pl := pl, jrEvent := (jrInfo p.joinRules).1, joinRule := (jrInfo p.joinRules).2 }
+            plEvent := pe, pl := pl, plErr := plErrOf p.powerLevels,
+            jrEvent := (jrInfo p.joinRules).1, joinRule := (jrInfo p.joinRules).2 }
 
-theorem inv_switch {U} (a : Ctx) (p : Provider) (h : Inv U a) : Inv U (a.switchProvider p) := by
+theorem inv_switch (a : Ctx) (p : Provider) (h : Inv a) : Inv (a.switchProvider p) := by
   unfold Ctx.switchProvider
   split
-  · exact ⟨⟨(fun _ h => by cases h), (fun _ h => by cases h), (fun _ h => by cases h)⟩,
-           (fun _ h => by cases h), (fun _ h => by cases h), (fun _ h => by cases h)⟩
-  · exact ⟨h.inU, h.create, h.pl, h.jr⟩
+  · exact ⟨(fun _ h => by cases h), (fun _ h => by cases h), (fun _ h => by cases h), (fun _ h => by cases h)⟩
+  · exact ⟨h.create, h.pl, h.plErr, h.jr⟩
 
 theorem switch_fields (a : Ctx) (p : Provider) :
     (a.switchProvider p).provider = p ∧ (a.switchProvider p).hasProvider = true ∨
@@ -178,44 +220,41 @@ theorem switch_fields (a : Ctx) (p : Provider) :
 
 /-- **History independence of `update`.**  For any context satisfying the cache invariant (in particular any
     context reached from the empty one by updates), `update p` yields exactly `freshOf p` — a function of `p` only. -/
-theorem update_eq_freshOf {U} (hU : Ids U) (a : Ctx) (p : Provider) (hinv : Inv U a)
-    (hpc : OptIn U p.create) (hpp : OptIn U p.powerLevels) (hpj : OptIn U p.joinRules) :
-    a.update p = freshOf p := by
+theorem update_eq_freshOf (a : Ctx) (p : Provider) (hinv : Inv a) : a.update p = freshOf p := by
   unfold Ctx.update freshOf
   have hinv1 := inv_switch a p hinv
   simp only [bind, Except.bind, pure, Except.pure]
-  rw [refreshCreate_spec hU _ p hinv1 hpc]
+  rw [refreshCreate_spec _ p hinv1]
   cases hci : createInfo p.create with
   | error v => rfl
   | ok r =>
     obtain ⟨ce, c, cr, pr⟩ := r
     simp only
     -- the context after the create refresh still satisfies the invariant
-    have hinv2 : Inv U { (a.switchProvider p) with createEvent := ce, create := c, creators := cr, privilegedCreators := pr } := by
-      refine ⟨⟨?_, hinv1.inU.2.1, hinv1.inU.2.2⟩, ?_, hinv1.pl, hinv1.jr⟩
-      · intro e he
-        simp only at he; subst he
-        exact hpc e (createInfo_some hci)
-      · intro e he
-        simp only at he; subst he
-        have h' := hci; rw [createInfo_some hci] at h'; exact h'
-    rw [refreshPL_spec hU _ p hinv2 hpp]
+    have hinv2 : Inv { (a.switchProvider p) with createEvent := ce, create := c, creators := cr, privilegedCreators := pr } := by
+      refine ⟨?_, hinv1.pl, hinv1.plErr, hinv1.jr⟩
+      intro e he
+      simp only at he; subst he
+      have h' := hci; rw [createInfo_some hci] at h'; exact h'
+    rw [refreshPL_spec _ p hinv2]
     simp only
     cases hpi : plInfo p.powerLevels (senderOfOpt ce) with
     | error v => rfl
     | ok r2 =>
       obtain ⟨pe, pl⟩ := r2
       simp only
-      have hinv3 : Inv U { ({ (a.switchProvider p) with createEvent := ce, create := c, creators := cr, privilegedCreators := pr } : Ctx)
-                           with plEvent := pe, pl := pl } := by
-        refine ⟨⟨hinv2.inU.1, ?_, hinv2.inU.2.2⟩, hinv2.create, ?_, hinv2.jr⟩
-        · intro e he
-          simp only at he; subst he
-          exact hpp e (plInfo_some hpi).1
+      have hinv3 : Inv { ({ (a.switchProvider p) with createEvent := ce, create := c, creators := cr, privilegedCreators := pr } : Ctx)
+                           with plEvent := pe, pl := pl, plErr := plErrOf p.powerLevels } := by
+        refine ⟨hinv2.create, ?_, ?_, hinv2.jr⟩
         · intro e he creator
           simp only at he; subst he
           exact (plInfo_some hpi).2 creator
-      rw [refreshJR_spec hU _ p hinv3 hpj]
+        · intro e he
+          simp only at he; subst he
+          simp only
+          rw [(plInfo_some hpi).1]
+          exact plErrOf_none_of_plInfo ((plInfo_some hpi).2 [])
+      rw [refreshJR_spec _ p hinv3]
       rcases switch_fields a p with h | h
       · congr 1
         simp [h.1, h.2]
@@ -223,8 +262,7 @@ theorem update_eq_freshOf {U} (hU : Ids U) (a : Ctx) (p : Provider) (hinv : Inv 
         simp [h.1, h.2.1, h.2.2]
 
 /-- the invariant holds for every context produced by `update` (so for every reachable context) -/
-theorem inv_freshOf {U} (p : Provider) (c : Ctx) (h : freshOf p = .ok c)
-    (hpc : OptIn U p.create) (hpp : OptIn U p.powerLevels) (hpj : OptIn U p.joinRules) : Inv U c := by
+theorem inv_freshOf (p : Provider) (c : Ctx) (h : freshOf p = .ok c) : Inv c := by
   unfold freshOf at h
   cases hci : createInfo p.create with
   | error v => simp [hci] at h
@@ -237,23 +275,18 @@ theorem inv_freshOf {U} (p : Provider) (c : Ctx) (h : freshOf p = .ok c)
       obtain ⟨pe, pl⟩ := r2
       simp only [hpi] at h
       cases h
-      refine ⟨⟨?_, ?_, ?_⟩, ?_, ?_, ?_⟩
-      · intro e he
-        simp only at he; subst he
-        exact hpc e (createInfo_some hci)
-      · intro e he
-        simp only at he; subst he
-        exact hpp e (plInfo_some hpi).1
-      · intro e he
-        simp only at he
-        have := jrInfo_some (e := p.joinRules) (je := e) (jr := (jrInfo p.joinRules).2) (by rw [← he])
-        exact hpj e this.1
+      refine ⟨?_, ?_, ?_, ?_⟩
       · intro e he
         simp only at he; subst he
         have h' := hci; rw [createInfo_some hci] at h'; exact h'
       · intro e he creator
         simp only at he; subst he
         exact (plInfo_some hpi).2 creator
+      · intro e he
+        simp only at he; subst he
+        simp only
+        rw [(plInfo_some hpi).1]
+        exact plErrOf_none_of_plInfo ((plInfo_some hpi).2 [])
       · intro e he
         simp only at he
         exact (jrInfo_some (e := p.joinRules) (je := e) (jr := (jrInfo p.joinRules).2) (by rw [← he])).2
@@ -286,16 +319,11 @@ def runFresh : Option Provider → List Step → List (Option Verdict)
        | .ok c => (match c.allowed e sig with | .ok () => some .ok | .error v => some v)
        | .error _ => none) :: runFresh cur rest
 
-def StepsIn (U : Event → Prop) : List Step → Prop
-  | [] => True
-  | .update p :: rest => OptIn U p.create ∧ OptIn U p.powerLevels ∧ OptIn U p.joinRules ∧ StepsIn U rest
-  | .check _ _ :: rest => StepsIn U rest
-
 /-- **C09, main theorem.**  The verdict sequence of ANY run of one reused checker — any number of providers
-    (same or different create / power-levels / join-rules events, unparseable ones, missing ones), any
-    interleaving of updates and checks — equals the verdicts fresh checks would give. -/
-theorem verdicts_history_independent {U} (hU : Ids U) (a : Ctx) (cur : Option Provider) (steps : List Step)
-    (hinv : Inv U a) (hcur : ∀ p, cur = some p → freshOf p = .ok a) (hin : StepsIn U steps)
+    (same or different create / power-levels / join-rules events, unparseable ones, missing ones, different events
+    carrying one event ID), any interleaving of updates and checks — equals the verdicts fresh checks would give. -/
+theorem verdicts_history_independent (a : Ctx) (cur : Option Provider) (steps : List Step)
+    (hinv : Inv a) (hcur : ∀ p, cur = some p → freshOf p = .ok a)
     (hstart : cur = none → ∀ e sig rest, steps ≠ .check e sig :: rest) :
     run a steps = runFresh cur steps := by
   induction steps generalizing a cur with
@@ -303,14 +331,13 @@ theorem verdicts_history_independent {U} (hU : Ids U) (a : Ctx) (cur : Option Pr
   | cons s rest ih =>
     cases s with
     | update p =>
-      obtain ⟨h1, h2, h3, h4⟩ := hin
       simp only [run, runFresh]
-      rw [update_eq_freshOf hU a p hinv h1 h2 h3]
+      rw [update_eq_freshOf a p hinv]
       cases hf : freshOf p with
       | error v => rfl
       | ok a' =>
         simp only
-        apply ih a' (some p) (inv_freshOf p a' hf h1 h2 h3) (fun q hq => by cases hq; exact hf) h4
+        apply ih a' (some p) (inv_freshOf p a' hf) (fun q hq => by cases hq; exact hf)
         intro h; cases h
     | check e sig =>
       simp only [run, runFresh]
@@ -319,19 +346,116 @@ theorem verdicts_history_independent {U} (hU : Ids U) (a : Ctx) (cur : Option Pr
       | some p =>
         simp only [hcur p rfl]
         congr 1
-        apply ih a (some p) hinv hcur hin
+        apply ih a (some p) hinv hcur
         intro h; cases h
 
 /-- Non-vacuity: the empty context satisfies the invariant, and every run starting with an update meets the hypotheses. -/
-example {U} (hU : Ids U) (p : Provider) (rest : List Step) (hin : StepsIn U (.update p :: rest)) :
+example (p : Provider) (rest : List Step) :
     run {} (.update p :: rest) = runFresh none (.update p :: rest) :=
-  verdicts_history_independent hU {} none _ (inv_empty U) (fun _ h => by cases h) hin (fun _ e sig r h => by cases h)
+  verdicts_history_independent {} none _ inv_empty (fun _ h => by cases h) (fun _ e sig r h => by cases h)
 
 /-- `Allowed` is the fresh check behind the `Valid()` gate. -/
 theorem allowedFresh_eq (e : Event) (p : Provider) (sig : Bool) :
     allowedFresh e p sig = if !p.valid then .notAllowed else allowedFreshNoValid e p sig := by
   unfold allowedFresh allowedFreshNoValid
   split <;> rfl
+
+/-- the cache computed from the provider alone is what `update` leaves in a context that has never been used -/
+theorem freshOf_eq_update (p : Provider) : freshOf p = ({} : Ctx).update p := (AuthRules.update_empty p).symm
+
+theorem freshOf_provider {p : Provider} {c : Ctx} (h : freshOf p = .ok c) : c.provider = p :=
+  (AuthRules.fresh_of h).provider
+
+/-- **The reused checker makes the `Valid()` test itself** (32272dd): the check of a context freshly created for `p` —
+    which is how the state-resolution model calls the checker — is the standalone `Allowed`.  Before the repair the two
+    differed exactly on providers holding events of several rooms.  (Side condition: the auth events are inside the
+    modelled domain; on an unmodelled create / power-levels event `update` itself answers `unmodelled`.) -/
+theorem allowedFresh_eq_noValid (e : Event) (p : Provider) (sig : Bool)
+    (hm : ∀ w, allowedFreshNoValid e p sig ≠ .unmodelled w) :
+    allowedFresh e p sig = allowedFreshNoValid e p sig := by
+  rw [allowedFresh_eq]
+  by_cases hv : (!p.valid) = true
+  · simp only [hv, if_true]
+    unfold allowedFreshNoValid at hm ⊢
+    rw [← freshOf_eq_update] at hm ⊢
+    cases hf : freshOf p with
+    | error v =>
+      obtain ⟨w, rfl⟩ := AuthRules.freshOf_error hf
+      rw [hf] at hm
+      exact absurd rfl (hm w)
+    | ok c =>
+      simp only
+      unfold Ctx.allowed
+      rw [freshOf_provider hf, hv]
+      rfl
+  · simp only [hv, if_false, Bool.false_eq_true]
+
+/-- A check through a reused checker that was last updated with `p` answers what the standalone `Allowed(e, p)`
+    answers — with its `Valid()` gate. -/
+theorem check_eq_allowed (p : Provider) (c : Ctx) (h : freshOf p = .ok c) (e : Event) (sig : Bool) :
+    (match c.allowed e sig with | .ok () => Verdict.ok | .error v => v) = allowedFresh e p sig := by
+  unfold allowedFresh
+  rw [← freshOf_eq_update, h]
+  by_cases hv : (!p.valid) = true
+  · simp only [hv, if_true]
+    unfold Ctx.allowed
+    rw [freshOf_provider h, hv]
+    rfl
+  · simp only [hv, if_false, Bool.false_eq_true]
+    cases c.allowed e sig with
+    | ok u => cases u; rfl
+    | error v => rfl
+
+/-- the same run where every check is answered by the standalone `Allowed` on the most recent provider -/
+def runAllowed : Option Provider → List Step → List (Option Verdict)
+  | _, [] => []
+  | _, .update p :: rest =>
+    match freshOf p with
+    | .ok _ => runAllowed (some p) rest
+    | .error _ => []
+  | cur, .check e sig :: rest =>
+    (match cur with
+     | none => none
+     | some p => match freshOf p with
+       | .ok _ => some (allowedFresh e p sig)
+       | .error _ => none) :: runAllowed cur rest
+
+theorem runFresh_eq_runAllowed (cur : Option Provider) (steps : List Step) : runFresh cur steps = runAllowed cur steps := by
+  induction steps generalizing cur with
+  | nil => rfl
+  | cons s rest ih =>
+    cases s with
+    | update p =>
+      simp only [runFresh, runAllowed]
+      cases freshOf p with
+      | error v => rfl
+      | ok c => exact ih (some p)
+    | check e sig =>
+      simp only [runFresh, runAllowed]
+      congr 1
+      · cases cur with
+        | none => rfl
+        | some p =>
+          simp only
+          cases hf : freshOf p with
+          | error v => rfl
+          | ok c =>
+            simp only
+            have h := check_eq_allowed p c hf e sig
+            cases hca : c.allowed e sig with
+            | ok u => cases u; rw [hca] at h; rw [← h]
+            | error v => rw [hca] at h; rw [← h]
+      · exact ih cur
+
+/-- **C09: the verdict is the same whether the event is checked on its own or through a reused checker.**  The verdict
+    sequence of any run of one reused checker equals what the standalone `Allowed` (Valid() gate included) answers for the
+    provider the checker was last updated with.  (Before 32272dd this held only without the gate: the reused checker
+    accepted events against auth events of several rooms.) -/
+theorem reused_checker_eq_allowed (a : Ctx) (cur : Option Provider) (steps : List Step)
+    (hinv : Inv a) (hcur : ∀ p, cur = some p → freshOf p = .ok a)
+    (hstart : cur = none → ∀ e sig rest, steps ≠ .check e sig :: rest) :
+    run a steps = runAllowed cur steps := by
+  rw [verdicts_history_independent a cur steps hinv hcur hstart, runFresh_eq_runAllowed]
 
 /-- **Verdicts need only the needed state** (insertion order, duplicates): two providers that agree on the
     lookups the checker performs give the same fresh context — the verdict is a function of those lookups. -/
